@@ -226,7 +226,7 @@ def process_unit(unit, tier, seed):
     want = {}
     for f in om.functions:
         if f["mode"] == "fn":
-            want[f["fn"]] = want.get(f["fn"], 0) + 1
+            want[f["name"]] = want.get(f["name"], 0) + 1
     for fn, n in want.items():
         if len(names.get(fn, [])) < n:
             r.update(status="undecided", reason=f"function {fn} missing from Verus' function breakdown (no obligations generated)")
